@@ -241,6 +241,7 @@ static void run_cases(Ctx &ctx, size_t n, const CaseFn &fn, const std::function<
             FILE *out = fdopen(pfd[1], "w");
             signal(SIGALRM, [](int) { _exit(98); });
             for (size_t i = start; i < n; ++i) {
+                if ((i & 63) == 0 && ctx.out_of_time()) { fflush(out); _exit(97); }  // global deadline: stop, the parent reports the run as capped
                 *g_progress = (long)i;
                 alarm(per_case_seconds);
                 CaseResult r = fn(i);
@@ -271,6 +272,7 @@ static void run_cases(Ctx &ctx, size_t n, const CaseFn &fn, const std::function<
         int status = 0;
         waitpid(pid, &status, 0);
         if (WIFEXITED(status) && WEXITSTATUS(status) == 0) { start = n; break; }
+        if (WIFEXITED(status) && WEXITSTATUS(status) == 97) { ctx.capped = true; break; }
         size_t bad = (size_t)*g_progress;
         std::string err;
         { std::ifstream f(errpath); std::stringstream ss; ss << f.rdbuf(); err = ss.str(); }
@@ -326,6 +328,7 @@ static std::vector<Mut> enumerate_byte_mutations(const std::string &f, bool thor
         for (int w : {2, 4, 8}) {
             if (p + w > f.size()) continue;
             if (!thorough && (p % (w == 8 ? 4 : w)) != 0) continue;
+            if (!thorough && w == 2 && (p % 4) != 0) continue;
             for (uint64_t v : FIELD_VALUES) { if (w < 8 && (v >> (8 * w)) != 0) continue; r.push_back({5, p, v, w}); }
         }
     return r;
@@ -396,7 +399,6 @@ static void run_c07(Ctx &ctx, bool thorough, int part, int nparts, const std::st
     for (int binary = 1; binary >= 0; --binary) {
         auto files = build_files(ctx, binary, thorough, binary ? ALL_TYPES : ASCII_TYPES);
         for (size_t fi = 0; fi < files.size(); ++fi) {
-            if ((int)(fi % nparts) != part && replay.empty()) continue;
             const FileCase &fc = files[fi];
             std::vector<std::string> inputs;
             std::vector<std::string> labels;
@@ -407,6 +409,7 @@ static void run_c07(Ctx &ctx, bool thorough, int part, int nparts, const std::st
                 auto cp = walk_chunks(fb);
                 for (size_t fj = 0; fj < files.size(); ++fj) {
                     if (fj == fi) continue;
+                    if (!thorough && (fj + fi) % 4 != 0) continue;  // quick tier: splices with every fourth other file
                     Bytes ob(files[fj].bytes.begin(), files[fj].bytes.end());
                     auto op = walk_chunks(ob);
                     for (size_t a = 0; a < cp.size(); a += (thorough ? 1 : 2)) for (size_t b = 0; b < op.size(); b += (thorough ? 1 : 2)) {
@@ -447,7 +450,10 @@ static void run_c07(Ctx &ctx, bool thorough, int part, int nparts, const std::st
                 continue;
             }
             if (ctx.samples.size() < 4) ctx.samples.push_back(describe(ctx.samples.size() * 7 % (inputs.size() * per)) + " input=" + hex_of(inputs[0], 48) + "...");
-            run_cases(ctx, inputs.size() * per, fn, describe, "c07:", 3);
+            // cases of one file are dealt out to the parts in blocks of 2048 (files differ a lot in size)
+            std::vector<size_t> mine;
+            for (size_t i = 0; i < inputs.size() * per; ++i) if ((int)((i / 2048 + fi) % (size_t)nparts) == part) mine.push_back(i);
+            run_cases(ctx, mine.size(), [&](size_t k) { return fn(mine[k]); }, [&](size_t k) { return describe(mine[k]); }, "c07:", 3);
             if (ctx.capped) return;
         }
     }
